@@ -4,7 +4,7 @@ import numpy as np
 from common import *
 
 ID = "C12"
-THEOREM_FILES = ["Summer.Props.C12", "Summer.Props.C12Grid", "Summer.Props.C12Dates", "Summer.Props.C13Source", "Summer.Props.C08Source", "Summer.Props.C06Source", "Summer.Props.C17Reach", "Summer.Props.C12Source"]
+THEOREM_FILES = ["Summer.Props.C12", "Summer.Props.C12Grid", "Summer.Props.C12EndToEnd", "Summer.Props.C12Dates", "Summer.Props.C13Source", "Summer.Props.C08Source", "Summer.Props.C06Source", "Summer.Props.C17Reach", "Summer.Props.C12Source"]
 TASK = "task"
 RULE = ("programs with 0-3 full/partial stratifications and flows added before and after them: model.times vs t0 + i*h, compartment order vs "
         "the model's in-place replacement rule, outputs shape, DataFrame index/columns, every flow end is the compartment at the position it "
